@@ -161,6 +161,7 @@ class Seq(Node):
         self._elem = BOT
         self.items = items
         self.alloc: ast.AST | None = None
+        self.distinct = False  # built only from the elements of sets / dict keys: no element occurs twice
 
     @property
     def elem(self) -> AV:
@@ -1680,7 +1681,7 @@ class Interp:
         for n in av.refs:
             if isinstance(n, Seq):
                 outs.append(n.elem)
-                if n.kind not in ("set", "frozenset"):
+                if n.kind not in ("set", "frozenset") and not n.distinct:
                     unique = False
             elif isinstance(n, Dict):
                 outs.append(n.k)
@@ -2404,6 +2405,8 @@ class Interp:
             if "default_factory" in kwargs:
                 return self.call_value(kwargs["default_factory"], [], {}, fr, e, tag="default_factory")
             return BOT
+        if name in ("copy.deepcopy", "copy.copy"):
+            return a0  # the copy holds what the original holds (aliasing over-approximates)
         if name in ("typing.cast",):
             return args[1] if len(args) > 1 else BOT
         if name in ("pathlib.Path", "pathlib.PurePath", "os.fspath", "os.path.abspath", "os.fsdecode"):
@@ -2530,6 +2533,7 @@ class Interp:
             s = self.seq(fr, e, kind, name)
             for a in args[:1]:
                 self.grow_elem(s, self.iterate(a, None, fr, None))
+            s.distinct = bool(a0.refs) and not a0.consts and not a0.top and all((isinstance(x, Seq) and (x.kind in ("set", "frozenset") or x.distinct)) or isinstance(x, Dict) or (isinstance(x, View) and x.kind == "keys") for x in a0.refs)
             return replace(ref(s), src=a0.src)
         if name == "dict":
             d = self.dict_(fr, e, "dict()")
@@ -2641,6 +2645,10 @@ class Interp:
                     return join(*outs, args[2] if len(args) > 2 else BOT)
                 del fake
             return self.unknown_value("getattr", *args)
+        if name == "dict.fromkeys":
+            d = self.dict_(fr, e, "fromkeys")
+            self.grow_dict(d, self.iterate(a0, None, fr, None), args[1] if len(args) > 1 else NONE)
+            return ref(d)
         if name in ("set.union", "frozenset.union"):
             s = self.seq(fr, e, "set", "set.union")
             for a in args:
